@@ -149,6 +149,165 @@ def sort_violation(zs, impl):
     return None
 
 
+# ---------------------------------------------------------------------------------------------------
+# rounded boxes (Box.rounded_box & co, resolve_radii_percentages): direct calls with Fractions
+
+GEO_SLOTS = ('position_x position_y margin_left margin_top border_top_width border_right_width border_bottom_width '
+             'border_left_width padding_top padding_right padding_bottom padding_left width height').split()
+CORNERS = ('top_left', 'top_right', 'bottom_right', 'bottom_left')
+
+
+def random_geo(rng, adversarial):
+    """14 lengths + 4 radii pairs, as Fractions (halves, quarters, thirds; zeros and huge values when adversarial)."""
+    def length(top):
+        roll = rng.random()
+        if roll < 0.2:
+            return Fraction(0)
+        if adversarial and roll < 0.3:
+            return Fraction(rng.choice([10 ** 6, 10 ** 9, 1]), rng.choice([1, 3, 7]))
+        return Fraction(rng.randrange(0, top * 4), rng.choice([1, 2, 4, 4, 3]))
+    lengths = [length(50), length(50), length(20), length(20)]
+    lengths += [length(12) for _ in range(4)]           # border widths: independent per side
+    lengths += [length(8) for _ in range(4)]            # paddings
+    lengths += [length(60), length(60)]                 # content width / height
+    if not adversarial and rng.random() < 0.5:
+        lengths[12] += 40
+        lengths[13] += 40
+    def radius():
+        roll = rng.random()
+        if roll < 0.15:
+            return (Fraction(0), Fraction(0))
+        rx = length(25)
+        return (rx, rx) if roll < 0.5 else (rx, length(25))
+    radii = [radius() for _ in range(4)]
+    if rng.random() < 0.3:
+        radii = [radii[0]] * 4
+    return lengths, radii
+
+
+def geo_box(lengths, radii):
+    from weasyprint.formatting_structure import boxes
+    box = boxes.BlockBox.__new__(boxes.BlockBox)
+    for name, value in zip(GEO_SLOTS, lengths):
+        setattr(box, name, value)
+    for corner, value in zip(CORNERS, radii):
+        setattr(box, f'border_{corner}_radius', tuple(value))
+    box.remove_decoration_sides = set()
+    box.children = ()
+    return box
+
+
+def geo_wire(lengths, radii):
+    return list(lengths) + [list(r) for r in radii]
+
+
+def show_rounded(result):
+    x, y, w, h, *corners = result
+    def atom(v):
+        return sx.atom(Fraction(v))
+    return ' '.join([atom(x), atom(y), atom(w), atom(h)] + [f'({atom(a)} {atom(b)})' for a, b in corners])
+
+
+def rounded_call(box, call, args):
+    if call == 'rbox':
+        return box.rounded_box(*args)
+    if call == 'rratio':
+        return box.rounded_box_ratio(*args)
+    return {'rpadding': box.rounded_padding_box, 'rborder': box.rounded_border_box,
+            'rcontent': box.rounded_content_box}[call]()
+
+
+def rounded_expected(lengths, radii, call, args):
+    """css-backgrounds-3 corner shaping + corner overlap, stated directly (judge only)."""
+    px, py, ml, mt, bt, br, bb, bl, pt, pr, pb, pl, width, height = lengths
+    border_w = width + pl + pr + bl + br
+    border_h = height + pt + pb + bt + bb
+    if call == 'rbox':
+        it, ir, ib, il = args
+    elif call == 'rratio':
+        it, ir, ib, il = (w * args[0] for w in (bt, br, bb, bl))
+    elif call == 'rpadding':
+        it, ir, ib, il = bt, br, bb, bl
+    elif call == 'rborder':
+        it = ir = ib = il = 0
+    else:
+        it, ir, ib, il = bt + pt, br + pr, bb + pb, bl + pl
+    # horizontal radius shrinks by the inset of the corner's left/right side, vertical by its top/bottom side
+    insets = {'top_left': (il, it), 'top_right': (ir, it), 'bottom_right': (ir, ib), 'bottom_left': (il, ib)}
+    inner = {c: (max(0, r[0] - insets[c][0]), max(0, r[1] - insets[c][1])) for c, r in zip(CORNERS, radii)}
+    w, h = border_w - il - ir, border_h - it - ib
+    ratio = Fraction(1)
+    for extent, total in ((w, inner['top_left'][0] + inner['top_right'][0]),
+                          (w, inner['bottom_left'][0] + inner['bottom_right'][0]),
+                          (h, inner['top_left'][1] + inner['bottom_left'][1]),
+                          (h, inner['top_right'][1] + inner['bottom_right'][1])):
+        if total > 0:
+            ratio = min(ratio, Fraction(extent) / total)
+    return (px + ml + il, py + mt + it, w, h) + tuple(
+        (inner[c][0] * ratio, inner[c][1] * ratio) for c in CORNERS)
+
+
+def rounded_violation(lengths, radii, call, args):
+    box = geo_box(lengths, radii)
+    got = docs.outcome(lambda: show_rounded(rounded_call(box, call, args)))
+    want = show_rounded(rounded_expected(lengths, radii, call, args))
+    if got != want:
+        return (f'{call}{tuple(str(a) for a in args)} on border widths {[str(v) for v in lengths[4:8]]}, paddings '
+                f'{[str(v) for v in lengths[8:12]]}, content {lengths[12]}x{lengths[13]}, radii '
+                f'{[(str(a), str(b)) for a, b in radii]}: rectangle/radii {got}; CSS (inner radius = max(0, outer - '
+                f'inset) per corner and axis, then corner-overlap scaling) gives {want}')
+    return None
+
+
+def radii_case(rng):
+    """Computed radii (value, '%' | 'px') for resolve_radii_percentages + removed sides."""
+    def dim():
+        roll = rng.random()
+        if roll < 0.2:
+            return (Fraction(0), 'px')
+        if roll < 0.55:
+            return (Fraction(rng.randrange(0, 200), rng.choice([1, 2, 4])), '%')
+        return (Fraction(rng.randrange(0, 160), rng.choice([1, 2, 4])), 'px')
+    corners = [(dim(), dim()) for _ in range(4)]
+    removed = [side for side in ('top', 'right', 'bottom', 'left') if rng.random() < 0.15]
+    return corners, removed
+
+
+def real_radii(lengths, corners, removed):
+    from weasyprint.css.properties import Dimension
+    from weasyprint.layout.percent import resolve_radii_percentages
+    box = geo_box(lengths, [(0, 0)] * 4)
+    box.remove_decoration_sides = set(removed)
+    box.style = {f'border_{c}_radius': (Dimension(*rx), Dimension(*ry)) for c, (rx, ry) in zip(CORNERS, corners)}
+    resolve_radii_percentages(box)
+    return ' '.join(f'({sx.atom(Fraction(a))} {sx.atom(Fraction(b))})'
+                    for a, b in (getattr(box, f'border_{c}_radius') for c in CORNERS))
+
+
+def radii_violation(lengths, corners, removed):
+    px, py, ml, mt, bt, br, bb, bl, pt, pr, pb, pl, width, height = lengths
+    border_w = width + pl + pr + bl + br
+    border_h = height + pt + pb + bt + bb
+    want = []
+    for corner, (rx, ry) in zip(CORNERS, corners):
+        def used(d, ref):
+            return ref * d[0] / 100 if d[1] == '%' else d[0]
+        if (rx[0] == 0 and rx[1] == 'px') or (ry[0] == 0 and ry[1] == 'px') or set(corner.split('_')) & set(removed):
+            want.append((Fraction(0), Fraction(0)))
+        else:
+            want.append((used(rx, border_w), used(ry, border_h)))
+    want = ' '.join(f'({sx.atom(Fraction(a))} {sx.atom(Fraction(b))})' for a, b in want)
+    got = docs.outcome(lambda: real_radii(lengths, corners, removed))
+    if got != want:
+        return (f'border radii {corners} on a {border_w}x{border_h} border box (removed sides {removed}) resolve to '
+                f'{got}; css-backgrounds-3 (% of the border-box width / height) gives {want}')
+    return None
+
+
+def frac_list(values):
+    return [Fraction(v) for v in values]
+
+
 def check_html(html, exempt=True):
     """Oracle on a rendered document (judge / search / replay). -> (text | None, findings seen)"""
     document = scene.render(html)
@@ -182,6 +341,9 @@ class C17(PropCheck):
         'draw_background colour fill, draw_border simple case, draw_table, draw_outline, draw_inline_level, '
         'draw_text visibility) as Model/Stacking.lean + Model/PaintOrder.lean; every isinstance test is taken from '
         'Gen/StackKinds.lean (class tuples by AST, membership by issubclass)',
+        'modelled, not verified: Box.rounded_box / rounded_padding_box / rounded_border_box / rounded_content_box / '
+        'rounded_box_ratio (boxes.py) and resolve_radii_percentages (layout/percent.py) as Model/RoundedBox.lean, '
+        'tied by exact direct calls with Fractions',
         'py/harness/c17_scene.py export_page: one abstract attribute per attribute read of the drawing code '
         '(style[...] / box.background / box.transformation_matrix / border widths / cell.empty)',
         'py/harness/c17_scene.py display_list: interpretation of the uncompressed content stream (q/Q, rg, W, gs, cm, '
@@ -257,6 +419,44 @@ class C17(PropCheck):
                          nontrivial=impl.count('(ctx') > 1 + len(specs),
                          tags=['adversarial' if adversarial else 'structured'])
 
+        sec_round = run.section(
+            'rounded-boxes',
+            'Box.rounded_box / rounded_padding_box / rounded_border_box / rounded_content_box / rounded_box_ratio on '
+            'real boxes with Fraction geometry (independent border widths, paddings, elliptical radii, overlapping '
+            'corners, zeros, huge values) vs RoundedBox.lean, exact; non-trivial = a non-zero radius meets a non-zero '
+            'inset and top/bottom or left/right insets differ')
+        for case in range(run.n(4000, 60000)):
+            adversarial = case % 4 == 0
+            lengths, radii = random_geo(rng, adversarial)
+            call = rng.choice(['rbox', 'rpadding', 'rpadding', 'rborder', 'rcontent', 'rcontent', 'rratio'])
+            args = []
+            if call == 'rbox':
+                args = [Fraction(rng.randrange(0, 60), rng.choice([1, 2, 3])) for _ in range(4)]
+            elif call == 'rratio':
+                args = [rng.choice([Fraction(1, 2), Fraction(1, 3), Fraction(2, 3), Fraction(1)])]
+            box = geo_box(lengths, radii)
+            out = docs.outcome(lambda: show_rounded(rounded_call(box, call, args)))
+            asym = lengths[4] != lengths[6] or lengths[5] != lengths[7] or bool(args)
+            sec_round.add(sx.line(call, geo_wire(lengths, radii), *args), out,
+                          meta={'lengths': lengths, 'radii': radii, 'call': call, 'args': args,
+                                'signature': f'round{case}'},
+                          nontrivial=asym and any(r[0] and r[1] for r in radii) and call != 'rborder',
+                          tags=[call, 'adversarial' if adversarial else 'structured'])
+        sec_radii = run.section(
+            'radii-percentages',
+            'resolve_radii_percentages on real boxes (px / % radii, zero components, removed decoration sides) vs '
+            'resolveRadii; non-trivial = a percentage radius on a non-square border box')
+        for case in range(run.n(2000, 30000)):
+            lengths, _ = random_geo(rng, case % 5 == 0)
+            corners, removed = radii_case(rng)
+            out = docs.outcome(lambda: real_radii(lengths, corners, removed))
+            wire_corners = [[rx[0], rx[1] == '%', ry[0], ry[1] == '%'] for rx, ry in corners]
+            rm = [side in removed for side in ('top', 'right', 'bottom', 'left')]
+            sec_radii.add(sx.line('radii', geo_wire(lengths, [(0, 0)] * 4), rm, wire_corners), out,
+                          meta={'lengths': lengths, 'corners': corners, 'removed': removed,
+                                'signature': f'radii{case}'},
+                          nontrivial=any(rx[1] == '%' or ry[1] == '%' for rx, ry in corners))
+
         sec_sort = run.section(
             'sort-z', 'StackingContext.__init__ on child contexts with random z-indexes (ties, negatives, zero, 10^15) '
             'vs splitZ/sortZ; non-trivial = two equal z among >= 3')
@@ -273,6 +473,12 @@ class C17(PropCheck):
         meta = d.get('meta') or {}
         if d['section'] == 'sort-z':
             return sort_violation(meta['zs'], d['impl'])
+        if d['section'] == 'rounded-boxes':
+            return rounded_violation(frac_list(meta['lengths']), [tuple(frac_list(r)) for r in meta['radii']],
+                                     meta['call'], frac_list(meta['args']))
+        if d['section'] == 'radii-percentages':
+            return radii_violation(frac_list(meta['lengths']),
+                                   [tuple((Fraction(v), u) for v, u in c) for c in meta['corners']], meta['removed'])
         if d['section'] == 'mock-dispatch':
             page = mock_page([tuple_spec(s) for s in meta['specs']])
             attrs, kids, _ = scene.export_page(page)
@@ -304,6 +510,17 @@ class C17(PropCheck):
                 found.append({'what': what, 'input': {'html': html}, 'signature': html[-80:]})
                 if len(found) >= 3:
                     return found
+        for case in range(3000):
+            run.search_stats['evaluations'] += 1
+            lengths, radii = random_geo(run.rng, case % 4 == 0)
+            for call, args in (('rpadding', []), ('rcontent', []), ('rborder', []), ('rratio', [Fraction(1, 2)])):
+                what = rounded_violation(lengths, radii, call, args)
+                if what:
+                    found.append({'what': what, 'input': {'lengths': lengths, 'radii': radii, 'call': call,
+                                                          'args': args}, 'signature': f'round-{call}'})
+                    break
+            if len(found) >= 3:
+                return found
         zs_cases = [[1, 1, -1, -1, 0, 0], [2, 1, 2, 1], [-1, -2, -1, -2], [0, 5, -5, 5, 0, -5]]
         for zs in zs_cases:
             run.search_stats['evaluations'] += 1
@@ -323,6 +540,12 @@ class C17(PropCheck):
             return check_html(meta['html'])[0]
         if 'zs' in meta:
             return sort_violation(meta['zs'], real_sort(meta['zs']))
+        if 'call' in meta:
+            return rounded_violation(frac_list(meta['lengths']), [tuple(frac_list(r)) for r in meta['radii']],
+                                     meta['call'], frac_list(meta['args']))
+        if 'corners' in meta:
+            return radii_violation(frac_list(meta['lengths']),
+                                   [tuple((Fraction(v), u) for v, u in c) for c in meta['corners']], meta['removed'])
         if 'specs' in meta:
             page = mock_page([tuple_spec(s) for s in meta['specs']])
             attrs, kids, _ = scene.export_page(page)
